@@ -33,6 +33,10 @@ func c15Alphabet(c Cfg) []Op {
 	} {
 		a = append(a, Op{K: "batch", Sub: body, Dev: true})
 	}
+	// the same through a batch the caller never reads from in between (a Batch.Get would refresh whatever the
+	// batch remembers about its last lookup)
+	a = append(a, Op{K: "batch", Arg: 2, Sub: []Op{p("a", "S"), p("a", "L"), p("b", "S")}, Dev: true})
+	a = append(a, Op{K: "batch", Arg: 2, Sub: []Op{p("b", "S"), d("b"), d("a")}, Dev: true})
 	return a
 }
 
@@ -58,6 +62,9 @@ func runC15(cfg Cfg, keys []string, ops []Op, res *TaskResult) *Violation {
 		res.Evals++
 		if w.Alias != "" {
 			return viol("C15", "caller-buffer-modified", "caller-buffer-modified", fmt.Sprintf("step %d %s: %s", i, op, w.Alias))
+		}
+		if ar.Clause == "batch-get-wrong" {
+			return viol("C15", "retained:batch-get-wrong", "retained:batch-get-wrong", fmt.Sprintf("step %d %s (every key, Batch.Get's included, goes through one reused buffer): %s", i, op, ar.Detail))
 		}
 		if c, d := w.CheckReads(); c != "" {
 			return viol("C15", "retained:"+c, "retained:"+c, fmt.Sprintf("step %d %s: with the caller's key/value buffers overwritten after each return: %s\nmodel=%s", i, op, d, modelString(w.Model)))
